@@ -664,6 +664,143 @@ theorem rollback_untouched_partial (n : Node) (w : Nat) (ws : Ws) (hws : findWs 
   · rfl
   · simp [hsnap]
 
+/-! ### failed commits, early and late -/
+
+/-- A FAILED COMMIT LEAVES CHAIN AND STORE EXACTLY AS THEY WERE IMMEDIATELY BEFORE THE CALL, for EVERY node state
+    (any chain, any store contents, any registry contents, any set of workspaces with any operation lists) and
+    whichever step failed: early (workspace not active, too many operations, conflict, merged block too large —
+    nothing was written yet) or late (`Chain::append` rejects the block after the operations of the workspace and
+    of the merged workspaces were applied to the store: the pre-apply snapshot is restored).  `chain` is the triple
+    (store image, in-memory height, in-memory tip); equality of the store image covers every data key, every block
+    record and the height record, hence also "the failed workspace's writes are absent". -/
+theorem failed_commit_untouched (C : Crypto) (n : Node) (w ts : Nat)
+    (hfail : ∀ h, (commit C n w ts).2.res ≠ some (.ok h)) :
+    (commit C n w ts).1.chain = n.chain ∧ (commit C n w ts).1.cfg = n.cfg := by
+  refine ⟨?_, commit_cfg C n w ts⟩
+  rcases commit_atomic C n w ts with ⟨b, ws, extra, h1, _⟩ | ⟨h, _⟩
+  · exact absurd h1 (hfail _)
+  · exact h
+
+/-- the same at the end of every history of client calls, the two registry calls
+    (`validator_registry().remove(node_id)`, `register_validator(identity())`) included, from every start state -/
+theorem failed_commit_untouched_history (C : Crypto) (n0 : Node) (ops : List OpX) (w ts : Nat) :
+    let n := runOpsX C n0 ops
+    (∀ h, (commit C n w ts).2.res ≠ some (.ok h)) →
+      (commit C n w ts).1.chain = n.chain ∧ (commit C n w ts).1.cfg = n.cfg := by
+  intro n h
+  exact failed_commit_untouched C n w ts h
+
+/-- THE LATE FAILURE, step by step, from every state in which `commit` has passed its early checks (`pc = snapshot`):
+    if `Chain::append` rejects the block built over the store with the operations applied, then after the five steps
+    snapshot / apply / root / build / append the store DOES hold the writes (`applyTxs`), and the restore step puts
+    back exactly the chain of before (not the image of some earlier moment such as the workspace's `begin`), reports
+    the append error and marks the workspace and every merged workspace `Failed`. -/
+theorem late_failure_restores (C : Crypto) (n : Node) (l : Local) (hpc : l.pc = .snapshot) (e : AppendErr)
+    (hfail : append C n.cfg.registry { n.chain with store := applyTxs n.chain.store l.ops }
+              (builtBlock C n l.ops l.dirs (stateRoot C (applyTxs n.chain.store l.ops)) l.ts) = .error e) :
+    (commitRun C 5 n l).2.pc = .restore ∧
+    (commitRun C 5 n l).1.chain.store = applyTxs n.chain.store l.ops ∧
+    (commitRun C 7 n l).2.pc = .done ∧
+    (commitRun C 7 n l).2.res = some (.appendFailed e) ∧
+    (commitRun C 7 n l).1.chain = n.chain ∧
+    (commitRun C 7 n l).1.wss = setStates n.wss (l.ws :: l.merged) .failed := by
+  simp only [commitRun, commitStep, hpc, builtBlock] at hfail ⊢
+  simp [hfail, finish]
+
+/-- the late failure is reachable without a second thread: with the node's own key absent from the registry and at
+    least one block after genesis, `Chain::append` rejects every block `commit` builds (whatever the store, the
+    operations, the state root, the time) -/
+theorem unregistered_append_rejects (C : Crypto) (n : Node) (r : List (List Nat × Nat))
+    (hreg : n.cfg.registry = some r) (hno : regLookup r n.cfg.nodeId = none) (hh : 1 ≤ n.chain.height)
+    (s : List (SKey × SVal)) (ops : List Tx) (dirs root : List Nat) (ts : Nat) :
+    ∃ e, (e = .unsigned ∨ e = .badSig) ∧
+      append C n.cfg.registry { n.chain with store := s } (builtBlock C n ops dirs root ts) = .error e := by
+  rw [append_eq]
+  unfold appendCheck
+  rw [fixTxRoot_of_root C _ rfl]
+  by_cases hs : (builtBlock C n ops dirs root ts).header.signature = []
+  · refine ⟨.unsigned, Or.inl rfl, ?_⟩
+    have h1 : n.chain.height + 1 > 1 := by omega
+    simp [builtBlock] at hs
+    simp [builtBlock, hs, h1]
+  · refine ⟨.badSig, Or.inr rfl, ?_⟩
+    have h1 : n.chain.height + 1 > 1 := by omega
+    simp [builtBlock] at hs
+    simp [builtBlock, hs, h1, hreg, regSigOk, sigOk, hno]
+
+/-- both together, seen from the client: a `commit` that passes its early checks on a node whose key is not
+    registered (height ≥ 1) fails with the append error, after its writes were applied, and leaves the chain
+    (store, height, tip) exactly as it was before the call -/
+theorem commit_unregistered_late_failure (C : Crypto) (n : Node) (w ts : Nat) (r : List (List Nat × Nat))
+    (hreg : n.cfg.registry = some r) (hno : regLookup r n.cfg.nodeId = none) (hh : 1 ≤ n.chain.height)
+    (hprep : (commitStep C n (Local.init w ts)).2.pc = .snapshot) :
+    ∃ e, (e = .unsigned ∨ e = .badSig) ∧ (commit C n w ts).2.res = some (.appendFailed e) ∧
+      (commit C n w ts).1.chain = n.chain := by
+  have hr : commit C n w ts = commitRun C 7 (commitStep C n (Local.init w ts)).1 (commitStep C n (Local.init w ts)).2 := by
+    simp [commit, commitRun, Local.init]
+  have key := prepare_cases C n w ts
+  simp only at key
+  generalize commitStep C n (Local.init w ts) = q at key hr hprep
+  obtain ⟨n1, l1⟩ := q
+  simp only at key hr hprep
+  rcases key with ⟨hpc, _, _⟩ | ⟨hpc, hch, hcfg, _, _⟩
+  · rw [hprep] at hpc; cases hpc
+  · obtain ⟨e, he, happ⟩ := unregistered_append_rejects C n1 r (by rw [hcfg]; exact hreg) (by rw [hcfg]; exact hno)
+      (by rw [hch]; exact hh) (applyTxs n1.chain.store l1.ops) l1.ops l1.dirs (stateRoot C (applyTxs n1.chain.store l1.ops)) l1.ts
+    obtain ⟨_, _, _, h4, h5, _⟩ := late_failure_restores C n1 l1 hpc e happ
+    exact ⟨e, he, by rw [hr]; exact h4, by rw [hr, h5, hch]⟩
+
+/-- non-vacuity: block 1; workspace 1 begins and gets two writes (one over the committed key 1); workspace 2 begins
+    and commits block 2; the node's key is removed -/
+def lateHistory : List OpX :=
+  [.op .begin, .op (.put 0 1 1), .op (.commit 0 5), .op .begin, .op (.put 1 1 9), .op (.put 1 2 2),
+   .op .begin, .op (.put 2 3 3), .op (.commit 2 6), .unregister]
+
+def lateNode : Node := runOpsX drvCrypto (initNode drvCrypto cfg0 0) lateHistory
+
+/-- the hypotheses of `commit_unregistered_late_failure` hold at `lateNode`; the commit of workspace 1 fails late
+    (`badSig` = "unknown proposer"), chain and store are those of before (two blocks, key 1 still 1, key 2 absent),
+    and once the key is registered again the chain verifies -/
+example : lateNode.cfg.registry = some [] ∧ regLookup [] lateNode.cfg.nodeId = none ∧ lateNode.chain.height = 2 ∧
+    (commitStep drvCrypto lateNode (Local.init 1 7)).2.pc = .snapshot ∧
+    (commit drvCrypto lateNode 1 7).2.res = some (.appendFailed .badSig) ∧
+    (commit drvCrypto lateNode 1 7).1.chain = lateNode.chain ∧
+    sget lateNode.chain.store (.data 1) = some (.data 1) ∧ sget lateNode.chain.store (.data 2) = none ∧
+    verifyChain drvCrypto (registerSelf (commit drvCrypto lateNode 1 7).1).cfg.registry
+      (commit drvCrypto lateNode 1 7).1.chain = none := by decide +kernel
+
+/-- the restore step with the workspace's BEGIN-time checkpoint as the undo image (what `commit` would do if it
+    reused `workspace.checkpoint_bytes()` instead of taking `snapshot_bytes()` before applying).  NOT the code:
+    kept only for the witness below, which is why the harness stream `late_fail` compares the whole store. -/
+def commitStepBeginCkpt (C : Crypto) (n : Node) (l : Local) : Node × Local :=
+  match l.pc with
+  | .restore =>
+    let snap := match findWs n.wss l.ws with
+      | some ws => ws.snap
+      | none => l.snap
+    (finish { n with chain := { n.chain with store := snap } } (l.ws :: l.merged) .failed,
+     { l with pc := .done, res := some (.appendFailed (l.err.getD .height)) })
+  | _ => commitStep C n l
+
+def commitRunBeginCkpt (C : Crypto) : Nat → Node → Local → Node × Local
+  | 0, n, l => (n, l)
+  | f + 1, n, l =>
+    if l.pc = .done then (n, l)
+    else
+      let r := commitStepBeginCkpt C n l
+      commitRunBeginCkpt C f r.1 r.2
+
+/-- WITNESS (why the undo image must be taken right before the apply step): with the begin-time checkpoint as undo
+    image the same failed commit at `lateNode` erases block 2 and its write (committed by workspace 2 after
+    workspace 1 began) while the in-memory height stays 2, so `failed_commit_untouched` fails and the chain no
+    longer verifies even with the key registered again — whereas nothing is lost when no commit lies between the
+    workspace's `begin` and its failed commit (the k = 0 histories of the harness stream). -/
+theorem begin_checkpoint_restore_witness :
+    let r := commitRunBeginCkpt drvCrypto 8 lateNode (Local.init 1 7)
+    r.2.res = some (.appendFailed .badSig) ∧ r.1.chain.height = 2 ∧ r.1.chain ≠ lateNode.chain ∧
+    blockAt r.1.chain.store 2 = none ∧ sget r.1.chain.store (.data 3) = none ∧
+    verifyChain drvCrypto (registerSelf r.1).cfg.registry r.1.chain = some (.notFound 2) := by decide +kernel
+
 /-! ### the sequential-history invariant; `built_chain_verifies` for commit-built chains -/
 
 /-- side conditions of one client call in a sequential history.  `commit`: the clock (`SystemTime::now`, the
